@@ -1,5 +1,7 @@
 (* C02 — String() is standard JSON that an independent decoder reads as the same data. *)
 From Anytype Require Import Base FloatBits Value GoInt Utf8 Json JsonDoc JsonRefProofs SerializeProofs FormatProofs.
+From Anytype Require Import SourceTables SourceTablesProofs. From AnytypeGen Require Import GenTables.
+Local Open Scope Z_scope.
 Local Open Scope Z_scope.
 
 Section C02.
@@ -48,6 +50,19 @@ Example C02_nonvacuous :
   json_valid (B"{"""":[1.0,-0.0,null,true]}") = true.
 Proof. vm_compute. split; reflexivity. Qed.
 
+
+(* ---- second tie for quote(): the escape switch as the translator reads it from the source on every run (Generated/GenTables.v).
+   A table is emitted only when every case of the switch was understood; it then has to pass the checker, and the checker is
+   sound for ALL code points: the table interpreted as Go's switch writes exactly what the model's quote_rune writes. ---- *)
+Theorem C02_quote_table_checker_sound : forall cs, qtable_ok cs = true -> forall r, 0 <= r -> qinterp cs r = Some (quote_rune r).
+Proof. exact qtable_sound. Qed.
+Theorem C02_quote_table_generated :
+  match gen_quote_table with
+  | None => True                      (* shape not recognised: quote() is tied by the correspondence check alone *)
+  | Some (opening, closing, cs) => opening = [x22] /\ closing = [x22] /\ qtable_ok cs = true
+  end.
+Proof. vm_compute. first [ exact I | repeat split; reflexivity ]. Qed.
+
 Print Assumptions C02_valid_and_same_data.
 Print Assumptions C02_reference_decoder.
 Print Assumptions C02_decoder_decides_grammar.
@@ -55,3 +70,5 @@ Print Assumptions C02_decoder_complete.
 Print Assumptions C02_decoder_sound.
 Print Assumptions C02_quote.
 Print Assumptions C02_quote_denotes.
+Print Assumptions C02_quote_table_checker_sound.
+Print Assumptions C02_quote_table_generated.
